@@ -232,6 +232,7 @@ def check(pid, tier, seed, only=None, jobs=None):
             line += "; listed inputs in this run's obligations: %d in %d obligations, %d still reproduce" % (a["listed"], a["obligations"], a["reproduced"])
             witnesses_replayed += a["listed"]
         witnesses_replayed += st[1]
+        line = " ".join(line.split())          # one physical line per finding
         print(line)
         known_lines.append(line)
     for s in inconclusive:
@@ -240,7 +241,7 @@ def check(pid, tier, seed, only=None, jobs=None):
         print("HARNESS-ERROR", s)
     for name, cexp, what in violations:
         print("VIOLATION property=%s replay=%s" % (pid, cexp))
-        print("  obligation=%s  %s" % (name, what))
+        print("  obligation=%s  %s" % (name, " ".join(str(what).split())))
 
     # 4. evidence
     ch = [r for r in results if r["spec"]["engine"] == "ch"]
